@@ -401,7 +401,14 @@ func checkC02(w *World, r *Report) {
 		r.Check(okRes, "C02.carry", "amount returned upward = minted(successor) + amount", w.Pos(recCall.Instr.Pos()), "Add(result of the recursive call, amount)", "the total reported for the block omits this period's or the successor's part")
 	}
 	// ---------- C02.start ----------
-	for _, fn := range []*ssa.Function{mint, infl} {
+	periodStartRule(w, r, "C02.start", []*ssa.Function{mint, infl})
+}
+
+// periodStartRule: the schedule is evaluated for the current period from the start that its predecessor's end (or the configured start time) gives.
+func periodStartRule(w *World, r *Report, rule string, fns []*ssa.Function) {
+	cg := w.CG()
+	tr := w.Tracer()
+	for _, fn := range fns {
 		var sel *ssa.Call
 		for _, s := range cg.Sites[fn] {
 			if calleeIs(s, "x/cfeminter/keeper.getCurrentAndPreviousMinter") {
@@ -409,7 +416,7 @@ func checkC02(w *World, r *Report) {
 			}
 		}
 		if sel == nil {
-			r.Bad("C02.start", funcName(fn)+": current and predecessor from getCurrentAndPreviousMinter", w.Pos(fn.Pos()), "the shared selection function is not used")
+			r.Bad(rule, funcName(fn)+": current and predecessor from getCurrentAndPreviousMinter", w.Pos(fn.Pos()), "the shared selection function is not used")
 			continue
 		}
 		a := sel.Common().Args
@@ -417,7 +424,7 @@ func checkC02(w *World, r *Report) {
 		okArgs := loadOfField(a[0], "Minters", nil) && (o0.HasCall("GetParams") || o0.HasLeaf("param", "params") || o0.HasPath("Params.Minters"))
 		o1 := tr.Origins(a[1])
 		okArgs = okArgs && (o1.HasCall("GetMinterState") || o1.HasCall("MustUnmarshal"))
-		r.Check(okArgs, "C02.start", funcName(fn)+": selection over (params.Minters, stored state)", w.Pos(sel.Pos()), "arguments are the configured periods and the stored minter state", "the periods are selected from other data than the parameters and the stored state")
+		r.Check(okArgs, rule, funcName(fn)+": selection over (params.Minters, stored state)", w.Pos(sel.Pos()), "arguments are the configured periods and the stored minter state", "the periods are selected from other data than the parameters and the stored state")
 		// the start passed on
 		var startArg ssa.Value
 		var user *Site
@@ -438,7 +445,7 @@ func checkC02(w *World, r *Report) {
 			}
 		}
 		if user == nil || startArg == nil {
-			r.Bad("C02.start", funcName(fn)+": period start passed to the schedule", w.Pos(fn.Pos()), "no period-start argument found")
+			r.Bad(rule, funcName(fn)+": period start passed to the schedule", w.Pos(fn.Pos()), "no period-start argument found")
 			continue
 		}
 		// receiver is current (#0)
@@ -484,7 +491,7 @@ func checkC02(w *World, r *Report) {
 				okStart = true
 			}
 		}
-		r.Check(isCur && okStart, "C02.start", funcName(fn)+": start = params.StartTime without predecessor, predecessor.EndTime otherwise", w.Pos(user.Instr.Pos()), "receiver is result #0, start is selected by the nil test of result #1", "the period does not start where its predecessor ended (or at the configured start time)")
+		r.Check(isCur && okStart, rule, funcName(fn)+": start = params.StartTime without predecessor, predecessor.EndTime otherwise", w.Pos(user.Instr.Pos()), "receiver is result #0, start is selected by the nil test of result #1", "the period does not start where its predecessor ended (or at the configured start time)")
 	}
 }
 
